@@ -31,10 +31,96 @@ def _build_and_run(crate, profile, hooks):
     return {"built": True, "rc": rc, "lines": o.splitlines(), "build_output": ""}
 
 
-def run_e3(tier, seed):
+# ---- mapping of builder histories (E1 / E2 format, synthetic shapes) to executable definitions
+# shape (size, align) -> palette indices of mkexec.rs (droppable first: ledger-tracked)
+SHAPES = {(1, 1): [0], (2, 2): [1], (4, 4): [10, 2], (8, 8): [3], (3, 1): [4], (24, 8): [5, 8], (0, 1): [6, 9], (8, 4): [11]}
+COPY_TYPES = {0, 1, 2, 3, 4, 9, 11}
+
+
+def approx_shape(size, align):
+    """a palette type with the same qualitative shape (zero-size / size <= alignment / size > alignment, alignment class)"""
+    if size == 0:
+        return [6, 9]
+    a = max(x for x in (1, 2, 4, 8, 16) if x <= max(align, 1))
+    if size <= a:
+        return {1: [0], 2: [1], 4: [10, 2], 8: [3], 16: [7]}[a]
+    return {1: [4], 2: [4], 4: [11], 8: [5, 8], 16: [5, 8]}[a]
+
+
+def history_to_spec(history, variant=0, approx=False):
+    """E1/E2 request text -> exec spec, or None when a shape has no palette type.  Requests the builder refuses
+    (clashing names, stale removals) are dropped: they consume no identifier."""
+    out, live, names, nxt, pending_rm = [], {}, {}, 0, set()
+    closed = False
+    for t in history.split():
+        p = t.split(":")
+        if p[0] == "A":
+            nm, size, align, uninit = int(p[1]), int(p[2]), int(p[3]), p[4] == "1"
+            if nm in names.values():
+                continue
+            cands = SHAPES.get((size, align)) or (approx_shape(size, align) if approx else None)
+            if not cands:
+                return None
+            ty = cands[(nxt + variant) % len(cands)]
+            out.append("A:%d:%d:%d" % (nm, ty, 1 if (uninit and ty in COPY_TYPES) else 0))
+            names[nxt] = nm
+            live[nxt] = True
+            nxt += 1
+        elif p[0] == "R":
+            i = int(p[1])
+            if i in names and i not in pending_rm:
+                out.append("R:%d" % i)
+                pending_rm.add(i)
+                del names[i]
+        elif p[0] == "C":
+            st = int(p[1])
+            if st > 3:
+                return None
+            out.append("C:%d" % st)
+            pending_rm = set()
+            closed = True
+    if not closed or not out or not out[-1].startswith("C:"):
+        out.append("C:0")
+    return " ".join(out)
+
+
+def search_specs(histories, tier, seed):
+    """runs the E3 scenarios on the definitions named by diverging / failing builder histories"""
+    specs = []
+    hs = sorted(set(histories), key=len)
+    for approx in (False, True):
+        for h in hs:
+            if len(h.split()) > 40:
+                continue
+            for variant in (0, 1):
+                sp = history_to_spec(h, variant, approx)
+                if sp and sp not in specs:
+                    specs.append(sp)
+        if len(specs) >= 30:
+            break
+    specs = specs[:40]
+    # continuations: one more variant on top of the point where the model and the implementation part ways
+    # (a difference in list order or in a free gap only becomes a wrong offset at the next close)
+    ext = []
+    for sp in specs[:16]:
+        for ty, st in ((2, 0), (0, 1), (3, 0), (1, 1)):
+            e = "%s A:%d:%d:0 C:%d" % (sp, 90 + ty, ty, st)
+            if e not in ext:
+                ext.append(e)
+    specs += ext
+    if not specs:
+        return None
+    d = os.path.join(CACHE, "run", "e3-search")
+    os.makedirs(d, exist_ok=True)
+    f = os.path.join(d, "search.spec")
+    open(f, "w").write("\n".join(specs) + "\n")
+    return run_e3(tier, seed, specfile=f, count=0)
+
+
+def run_e3(tier, seed, specfile=None, count=None):
     key = file_hash([os.path.join(REPO, "truc", "src"), os.path.join(REPO, "truc_runtime", "src"), os.path.join(REPO, "Cargo.lock"),
-                     os.path.join(HARNESS, "src"), os.path.join(HARNESS, "Cargo.toml"), corpus_file(),
-                     os.path.join(VERIF, "vlib", "e3.py")], extra="%s/%s" % (tier, seed))
+                     os.path.join(HARNESS, "src"), os.path.join(HARNESS, "Cargo.toml"), specfile or corpus_file(),
+                     os.path.join(VERIF, "vlib", "e3.py")], extra="%s/%s/%s" % (tier, seed, count))
     out = os.path.join(CACHE, "run", "e3-%s" % key)
     resf = os.path.join(out, "result.json")
     if os.path.exists(resf):
@@ -47,8 +133,9 @@ def run_e3(tier, seed):
     ok, o = harness_build(["mkexec"])
     if not ok:
         raise Broken("harness (mkexec) does not build against /repo:\n" + o[-3000:])
-    count = 160 if tier == "thorough" else 36
-    prim, _ = srcscan.scan_data()
+    if count is None:
+        count = 160 if tier == "thorough" else 36
+    _, prim, _ = srcscan.scan_runtime()
     write_aligned = prim.get("write", ("", ""))[1] != "Unaligned"
     crate = os.path.join(out, "crate")
     res = {"tier": tier, "seed": seed, "oracle": [], "counts": {}, "cached": False, "broken": []}
@@ -65,7 +152,7 @@ def run_e3(tier, seed):
         r = None
         for attempt in range(4):
             shutil.rmtree(os.path.join(crate, "src"), ignore_errors=True)
-            rc, o = sh([MKEXEC, "--out", crate, "--seed", str(seed), "--count", str(count), "--file", corpus_file(),
+            rc, o = sh([MKEXEC, "--out", crate, "--seed", str(seed), "--count", str(count), "--file", specfile or corpus_file(),
                         "--write-needs-alignment", "1" if write_aligned else "0",
                         "--skip-mod", ",".join(map(str, sorted(skip_mod))), "--skip-andout", ",".join(map(str, sorted(skip_ao)))], timeout=600)
             if rc != 0:
